@@ -41,17 +41,31 @@ func vkey(cols ...string) schema.Index { return schema.Index{Mode: 'k', Columns:
 // vcommit completes ut the way the checker goroutine does (check, then publish the state):
 // false if the transaction had been aborted. merge=true also merges its index layers at once.
 func vcommit(db *Database, ut *UpdateTran, merge bool) bool {
+	ok, tables := vcommit2(db, ut)
+	if ok && merge {
+		vmerge(db, tables)
+	}
+	return ok
+}
+
+// vcommit2 commits without merging and returns the tables whose layers await merging
+func vcommit2(db *Database, ut *UpdateTran) (bool, []string) {
 	tables := db.ck.(*Check).commit(ut)
 	if tables == nil {
-		return false
+		return false, nil
 	}
 	ut.commit()
-	if merge {
-		ml := &mergeList{}
-		ml.add(tables)
-		db.Merge(mergeSingle, ml)
+	return true, tables
+}
+
+// vmerge merges the pending layers of the given tables (what the merger goroutine does)
+func vmerge(db *Database, tables []string) {
+	if len(tables) == 0 {
+		return
 	}
-	return true
+	ml := &mergeList{}
+	ml.add(tables)
+	db.Merge(mergeSingle, ml)
 }
 
 // vscan returns the keys and offsets of a full forward scan of an index
